@@ -44,13 +44,30 @@ pub fn issue_session(
             ext_metadata: Default::default(),
         },
     );
-    w.qs_write.internal_modify_uuid(
-        target,
-        &ModifyList::new_list(vec![Modify::Present(
-            Attribute::UserAuthTokenSession,
-            session,
-        )]),
-    )?;
+    // Anonymous does not record its sessions. For everybody else the session must point at a
+    // credential the account really has (the session-consistency plugin revokes it otherwise), so a
+    // password credential with the session's cred_id is stored next to it, as the unit tests do.
+    if target != UUID_ANONYMOUS {
+        let policy = kanidm_lib_crypto::CryptoPolicy::minimum();
+        let mut cred = crate::credential::Credential::new_password_only(
+            &policy,
+            "verif-session-password",
+            time::OffsetDateTime::UNIX_EPOCH,
+        )
+        .map_err(|_| OperationError::CryptographyError)?;
+        cred.uuid = cred_id;
+        w.qs_write.internal_modify_uuid(
+            target,
+            &ModifyList::new_list(vec![
+                Modify::Present(Attribute::UserAuthTokenSession, session),
+                Modify::Purged(Attribute::PrimaryCredential),
+                Modify::Present(
+                    Attribute::PrimaryCredential,
+                    Value::Cred("primary".to_string(), cred),
+                ),
+            ]),
+        )?;
+    }
     let ident = w.process_uat_to_identity(&uat, ct, Source::Internal)?;
     Ok((uat, ident))
 }
